@@ -23,8 +23,8 @@ pub fn inputs_c01(r: &mut Rng, n: usize, _tier: &str, out: &mut dyn Write) {
                 }
                 writeln!(out, "divi {} {}", dstr(a), q).unwrap()
             }
-            13 => writeln!(out, "addu {} {}", dstr(a), unit_name(r)).unwrap(),
-            14 => writeln!(out, "subu {} {}", dstr(a), unit_name(r)).unwrap(),
+            13 => writeln!(out, "{} {} {}", *r.pick(&["addu", "addassign_u"]), dstr(a), unit_name(r)).unwrap(),
+            14 => writeln!(out, "{} {} {}", *r.pick(&["subu", "subassign_u"]), dstr(a), unit_name(r)).unwrap(),
             _ => {
                 let op = *r.pick(&["addassign", "subassign"]);
                 writeln!(out, "{} {} {}", op, dstr(a), dstr(partner(r, a))).unwrap()
@@ -268,6 +268,16 @@ pub fn exec(op: &str, a: &[&str]) -> Option<String> {
         "divi" => okd(s2d(a[0]) / a[1].parse::<i64>().unwrap()),
         "addu" => okd(s2d(a[0]) + s2u(a[1])),
         "subu" => okd(s2d(a[0]) - s2u(a[1])),
+        "addassign_u" => {
+            let mut d = s2d(a[0]);
+            d += s2u(a[1]);
+            okd(d)
+        }
+        "subassign_u" => {
+            let mut d = s2d(a[0]);
+            d -= s2u(a[1]);
+            okd(d)
+        }
         "addassign" => {
             let mut d = s2d(a[0]);
             d += s2d(a[1]);
